@@ -5,6 +5,7 @@ import (
 	"net"
 	"sync"
 	"sync/atomic"
+	"time"
 
 	"github.com/jimlambrt/gldap"
 
@@ -15,14 +16,14 @@ func init() {
 	register(&Check{
 		ID: "C09", Level: "exploration", Primary: "connections", EvalCount: "requests_tagged",
 		Rule: "16..256 concurrent clients run open / k requests of mixed operations / close / reconnect cycles against one long-lived server; every request carries the client-side connection tag in a DN; idle, " +
-			"malformed-frame and instantly-closed connections are interleaved (they consume IDs too). Oracle: tag -> ConnectionID is a function (stable per connection) and injective over the whole server lifetime " +
+			"malformed-frame and instantly-closed connections are interleaved (they consume IDs too), followed by episodes in which Accept fails temporarily (descriptor exhaustion) between two tagged connections. Oracle: tag -> ConnectionID is a function (stable per connection) and injective over the whole server lifetime " +
 			"(never reused, even after close), IDs > 0, and the ID passed to OnClose after a tagged connection ended is the one its handlers saw, exactly once. " +
 			"distinct_nontrivial = distinct tagged connections that issued at least two requests and were closed and reported via OnClose",
 		Assume: []string{"a connection is identified client-side by the tag it puts into its requests"},
 		Phases: func(tier string, seed int64) []Phase {
 			return []Phase{{Name: "cycles", Run: c09Run}}
 		},
-		MinObserved: []string{"requests_tagged", "reconnects_after_close", "onclose_ids_matched"},
+		MinObserved: []string{"requests_tagged", "reconnects_after_close", "onclose_ids_matched", "accept_failure_episodes"},
 	})
 }
 
@@ -78,7 +79,7 @@ func c09Run(c *Ctx) {
 	var connCtr atomic.Int64
 	var cur, maxCur atomic.Int64
 	var wg sync.WaitGroup
-	closedTags := make(chan string, totalConns+clients)
+	closedTags := make(chan string, totalConns+clients+100)
 	for cl := 0; cl < clients; cl++ {
 		wg.Add(1)
 		go func(cl int) {
@@ -161,6 +162,53 @@ func c09Run(c *Ctx) {
 		}(cl)
 	}
 	wg.Wait()
+	// accept-failure episodes: connection IDs must stay unique and positive when Accept fails temporarily
+	// (descriptor exhaustion) between two connections
+	extra := 0
+	for ep := 0; ep < c.N(4, 20); ep++ {
+		mkTagged := func(tag string) *Client {
+			kc, err := dialRaw(srv.Addr, nil)
+			if err != nil {
+				return nil
+			}
+			kc.Send(sber.Message(1, sber.BindRequest(3, []byte(tag), []byte("p")), nil).Encode())
+			if _, err := kc.ReadMsg(patience); err != nil {
+				kc.Close()
+				return nil
+			}
+			return kc
+		}
+		ta, tb := fmt.Sprintf("tag=emfile-%d-a", ep), fmt.Sprintf("tag=emfile-%d-b", ep)
+		a := mkTagged(ta)
+		held, err := emfileEpisode(srv.Addr, ep)
+		if err != nil {
+			c.Inconclusive("emfile episode: " + err.Error())
+			break
+		}
+		var b *Client
+		for dl := time.Now().Add(patience); b == nil && time.Now().Before(dl); time.Sleep(20 * time.Millisecond) {
+			select {
+			case <-srv.runDone:
+				c.Inconclusive("Run returned during an accept-failure episode (see C07)")
+				dl = time.Now()
+			default:
+			}
+			b = mkTagged(tb)
+		}
+		c.Count("accept_failure_episodes", 1)
+		// connections held during the episode were accepted (some only after descriptors were released): they consume IDs and OnClose calls
+		extra += held
+		for _, x := range []struct {
+			c *Client
+			t string
+		}{{a, ta}, {b, tb}} {
+			if x.c != nil {
+				x.c.Close()
+				closedTags <- x.t
+				extra++
+			}
+		}
+	}
 	close(closedTags)
 	// every tagged connection has been closed by its client: wait for the OnClose callbacks
 	nTagged := 0
@@ -169,10 +217,13 @@ func c09Run(c *Ctx) {
 		tags = append(tags, t)
 		nTagged++
 	}
+	// every tagged connection's OnClose must arrive; the episodes' held sockets may or may not have been accepted
 	want := int64(totalConns)
 	if !srv.WaitCloses(want, patience) {
 		c.Inconclusive(fmt.Sprintf("only %d of %d OnClose callbacks arrived", srv.closeCnt.Load(), want))
 	}
+	_ = extra
+	time.Sleep(200 * time.Millisecond)
 	closes := map[int]int{}
 	for _, ev := range srv.Closes() {
 		closes[ev.ID]++
